@@ -8,7 +8,7 @@ UNITS.update({
 })
 EXTRA = ('int gh_extent_sets, gh_writes; int gh_writes_at_extent_set;\nsize_t gh_set_rank, gh_w_count_rank, gh_w_offset_rank; ndsize_t gh_set_k, gh_w_count_k, gh_w_offset_k;\n')
 BODIES = ['NDSize_size', 'NDSize_at', 'NDSize_allocate', 'NDSize_copy_ctor', 'NDSize_fill', 'NDSize_ctor_fill', 'DataArray_appendData']
-JOBS = rank_cases(dict(name='DataArray_appendData', bodies=BODIES, enforce=['DataArray_appendData'], replace=[], extra_c=EXTRA, cbmc_flags=UNW,
+JOBS = rank_cases(dict(full_unwind=True, name='DataArray_appendData', bodies=BODIES, enforce=['DataArray_appendData'], replace=[], extra_c=EXTRA, cbmc_flags=UNW,
                        expect_kinds=['postcondition'], timeout=900))
 for j in JOBS:
     r = int(j['name'].split('rank=')[1].rstrip(']'))
